@@ -23,7 +23,7 @@ ASSUMPTIONS = [
 SHARDS = {'quick': 8, 'thorough': 16}
 BUDGET_S = {'quick': 50, 'thorough': 540}
 N_SETS = {'quick': 240, 'thorough': 4000}
-MIN_OBS = {'symbols_compared': {'quick': 40000, 'thorough': 600000}}
+MIN_OBS = {'symbols_compared': {'quick': 10000, 'thorough': 100000}}
 
 REAL_MODULES = [
 	'rogw.tranp.compatible.libralies.classes',
